@@ -1,5 +1,5 @@
 (* C15: string literals (prefix_string/mod.rs): round trip and absence of panics. *)
-From H3V Require Import Base.Bytes Base.BytesLemmas Spec.PrefixInt Spec.RFC7541Huffman Spec.HuffmanKnown
+From H3V Require Import Base.Bytes Base.BytesLemmas Gen.GenPrefixString Spec.PrefixInt Spec.RFC7541Huffman Spec.HuffmanKnown
   Model.PrefixInt Model.Huffman Model.PrefixString
   Proofs.C15Finite Proofs.BitsLemmas Proofs.HuffmanWalk Proofs.HuffmanStrict
   Proofs.PrefixIntProofs Proofs.HuffmanDecodeProofs Proofs.HuffmanEncodeProofs.
@@ -22,7 +22,7 @@ Theorem ps_roundtrip size flags s r :
   exists enc, ps_encode size flags s = Ok enc /\ ps_decode size (enc ++ r) = Ok (s, r).
 Proof.
   intros Hs Hf Hwf Hlen Hr.
-  destruct (hpack_encode_valid s Hwf) as (e & He & Hwe & Hv & Hel).
+  destruct (hpack_encode_valid s Hwf Hlen) as (e & He & Hwe & Hv & Hel).
   assert (Hdec : hpack_decode e = Ok s).
   { apply hpack_decode_lax; [assumption|exact (hpack_encode_fits s e Hwf Hlen Hel)|]. apply lax_split. left. exact Hv. }
   pose proof (codes_length s Hwf) as Hcl.
@@ -37,23 +37,26 @@ Proof.
   { exact Hf'. }
   { change (2 ^ 63) with 9223372036854775808. unfold len. lia. }
   { apply wf_bytes_app. auto. }
-  unfold ps_encode. rewrite He.
-  destruct (N.eqb_spec size 0) as [?|_]; [lia|].
+  unfold ps_encode, ps_enc_size_offset, ps_enc_flag_shift, ps_enc_flag_or. rewrite He.
+  destruct (N.ltb_spec size 1) as [?|_]; [lia|].
   rewrite Hlor, Hhd. exists (hd ++ e). split; [reflexivity|].
-  unfold ps_decode. destruct (N.eqb_spec size 0) as [?|_]; [lia|].
+  unfold ps_decode, ps_dec_size_offset, ps_dec_remaining_lt, ps_dec_h_mask, ps_dec_guard_width, ps_guard_value, ps_dec_guard_ops, sat64.
+  cbn [fold_left fst snd].
+  destruct (N.ltb_spec size 1) as [?|_]; [lia|].
   rewrite <- app_assoc, Hpd.
   destruct (N.ltb_spec (len (e ++ r)) (len e)) as [Hc|_]; [rewrite len_app in Hc; lia|].
   rewrite Hland. change (1 =? 0) with false. cbv iota.
   destruct (N.ltb_spec (2 ^ 32 - 1) (N.min (N.min (len e * 8) (2 ^ 64 - 1) + 8) (2 ^ 64 - 1))) as [Hc|_].
-  { change (2 ^ 32 - 1) with 4294967295 in Hc. unfold len in Hc. lia. }
+  { change (2 ^ 32 - 1) with 4294967295 in Hc. change (2 ^ 64 - 1) with 18446744073709551615 in Hc. unfold len in Hc. lia. }
   unfold len. rewrite Nat2N.id, firstn_app_exact, skipn_app_exact, Hdec. reflexivity.
 Qed.
 
 Theorem ps_decode_no_panic size bs :
   2 <= size <= 8 -> wf_bytes bs -> is_panic (ps_decode size bs) = false.
 Proof.
-  intros Hs Hwf. unfold ps_decode.
-  destruct (N.eqb_spec size 0) as [?|_]; [lia|].
+  intros Hs Hwf. unfold ps_decode, ps_dec_size_offset, ps_dec_remaining_lt, ps_dec_h_mask, ps_dec_guard_width, ps_guard_value, ps_dec_guard_ops, sat64.
+  cbn [fold_left fst snd].
+  destruct (N.ltb_spec size 1) as [?|_]; [lia|].
   pose proof (pi_decode_no_panic (size - 1) bs ltac:(lia) Hwf) as Hnp.
   destruct (pi_decode (size - 1) bs) as [[[f n] r]|e|p] eqn:Hpd; [|destruct e; reflexivity|discriminate].
   destruct (N.ltb_spec (len r) n) as [|Hge]; [reflexivity|].
